@@ -244,6 +244,8 @@ class ValueSpecBase(ValueSpec):
       raise TypeError(f'{self!r} cannot extend {base!r}: '
                       f'None is not allowed in base spec.')
     self._extend(base)  # pytype: disable=wrong-arg-types  # always-use-return-annotations
+    # The cached transform-less copy predates the inherited constraints.
+    self.__dict__.pop('skip_user_transform', None)
     if MISSING_VALUE != self._default and self._default is not None:
       # The default must still be acceptable under the constraints inherited
       # from the base.
